@@ -261,7 +261,44 @@ func emptiedWorkload(c *Case) bool {
 	return true
 }
 
+// bigLogWorkload: one transaction writes more log than the log buffer holds (no commit, eviction or checkpoint flushes it in
+// between: large pool) while other goroutines keep appending records of their own small transactions.
+func bigLogWorkload(c *Case) bool {
+	dbh.NoBackground(true)
+	db := dbh.Open("c19bl", 8000, false)
+	defer func() { func() { defer func() { recover() }(); db.Stop() }() }()
+	db.CreateTable(&dbh.TableDef{Name: "big", Cols: []dbh.Col{{Name: "id", T: "i", Idx: dbh.IdxNone}, {Name: "s", T: "s", Idx: dbh.IdxNone}}})
+	db.FrontDoor("CREATE TABLE small(id int, v int);")
+	for i := 0; i < 10; i++ {
+		db.FrontDoor(fmt.Sprintf("INSERT INTO small(id, v) VALUES (%d, %d);", i, i))
+	}
+	var stop int32
+	var wg sync.WaitGroup
+	for r := 0; r < 5; r++ {
+		wg.Add(1)
+		go func(r int) {
+			defer wg.Done()
+			for n := 0; atomic.LoadInt32(&stop) == 0 && n < 20000; n++ {
+				db.S.ExecuteSQL(fmt.Sprintf("SELECT v FROM small WHERE id = %d;", (r+n)%10))
+			}
+		}(r)
+	}
+	t := db.Begin()
+	for i := 0; i < 220 && !t.Done; i++ {
+		t.ExecSQL(fmt.Sprintf("INSERT INTO big(id, s) VALUES (%d, '%s');", i, strings.Repeat("B", 3300)), nil)
+	}
+	if !t.Done {
+		t.Commit()
+	}
+	atomic.StoreInt32(&stop, 1)
+	wg.Wait()
+	return true
+}
+
 func runWorkload(c *Case) (overlap bool, f *vf.Failure) {
+	if c.Workload == "biglog" {
+		return bigLogWorkload(c), nil
+	}
 	if c.Workload == "threads" {
 		return threadsWorkload(c), nil
 	}
@@ -526,7 +563,7 @@ func indexWorkload(db *dbh.DB, c *Case) bool {
 
 // ---- test ------------------------------------------------------------------------------------------------
 
-const rule = "Case = one run of a concurrent workload in a -race binary: 'sql' (4-12 goroutines calling SamehadaDB.ExecuteSQL: multi-row updates, selects, inserts, deletes, joins, relocating updates), 'txn' (multi-statement transactions through parser/optimizer/planner/executors with commit/abort), 'mixed' (both + a goroutine forcing checkpoints and refreshing table statistics + a client creating tables), 'ddl' (sql/txn clients + a client creating tables all through the run + goroutines refreshing the statistics of every table without pause), 'emptied' (fresh tables whose only page is emptied, then scanned while a too-large row makes the heap grow), 'threads' (clients on an instance whose own checkpoint and statistics threads run, ended by the public Shutdown), 'index:<kind>' (inserters/deleters/readers/range scanners on one skip-list / unique-skip-list / B-tree / hash index); pools small enough to evict; in-memory and file-backed storage. Oracle: every WARNING: DATA RACE report of the Go race detector whose racing accesses have a frame inside github.com/ryogrid/SamehadaDB/lib is a violation, identified by the unordered pair of innermost repository functions (reports entirely inside third-party modules or the harness are counted but do not count). Non-trivial = a run in which at least two goroutines were inside engine calls at the same time."
+const rule = "Case = one run of a concurrent workload in a -race binary: 'sql' (4-12 goroutines calling SamehadaDB.ExecuteSQL: multi-row updates, selects, inserts, deletes, joins, relocating updates), 'txn' (multi-statement transactions through parser/optimizer/planner/executors with commit/abort), 'mixed' (both + a goroutine forcing checkpoints and refreshing table statistics + a client creating tables), 'ddl' (sql/txn clients + a client creating tables all through the run + goroutines refreshing the statistics of every table without pause), 'emptied' (fresh tables whose only page is emptied, then scanned while a too-large row makes the heap grow), 'biglog' (one transaction writes more log than the log buffer holds while readers append their own records), 'threads' (clients on an instance whose own checkpoint and statistics threads run, ended by the public Shutdown), 'index:<kind>' (inserters/deleters/readers/range scanners on one skip-list / unique-skip-list / B-tree / hash index); pools small enough to evict; in-memory and file-backed storage. Oracle: every WARNING: DATA RACE report of the Go race detector whose racing accesses have a frame inside github.com/ryogrid/SamehadaDB/lib is a violation, identified by the unordered pair of innermost repository functions (reports entirely inside third-party modules or the harness are counted but do not count). Non-trivial = a run in which at least two goroutines were inside engine calls at the same time."
 
 var assumptions = []string{
 	"the race detector only sees executed schedules; absence of reports is not absence of races",
@@ -544,7 +581,7 @@ func TestRace(t *testing.T) {
 		t.Skip("VERIF_RACE_LOG not set (driver sets GORACE log_path)")
 	}
 	rng := rand.New(rand.NewSource(s.Seed*6151 + int64(s.Shard)))
-	workloads := []string{"sql", "txn", "mixed", "index:" + dbh.IdxSkip, "mixed", "index:" + dbh.IdxUniqSkip, "sql", "index:" + dbh.IdxBtree, "ddl", "index:" + dbh.IdxHash, "threads", "emptied"}
+	workloads := []string{"sql", "txn", "mixed", "index:" + dbh.IdxSkip, "mixed", "index:" + dbh.IdxUniqSkip, "sql", "index:" + dbh.IdxBtree, "ddl", "index:" + dbh.IdxHash, "threads", "emptied", "biglog", "sql"}
 	runs := s.Pick(8, 40)
 	hangs := 0
 	for i := 0; i < runs; i++ {
